@@ -14,13 +14,13 @@ import (
 type Expr interface{}
 
 type (
-	EIdent  struct{ Name string }
-	EInt    struct{ V string } // decimal text (big)
-	EStr    struct{ V string }
-	EReal   struct{ V string } // decimal text
-	EBool   struct{ V bool }
-	ENil    struct{}
-	EUnary  struct {
+	EIdent struct{ Name string }
+	EInt   struct{ V string } // decimal text (big)
+	EStr   struct{ V string }
+	EReal  struct{ V string } // decimal text
+	EBool  struct{ V bool }
+	ENil   struct{}
+	EUnary struct {
 		Op string
 		X  Expr
 	}
@@ -54,6 +54,8 @@ type (
 )
 
 type Clause struct {
+	Lemma bool // exit lemma (assumed after being obliged)
+	Site  int  // exit clauses: ordinal of the return statement they apply to (0: all)
 	Kind  string // requires ensures modifies invariant decreases panics assume inline exit
 	Label string
 	Loop  int
@@ -61,6 +63,11 @@ type Clause struct {
 	Mods  []Expr
 	Text  string
 	Line  int
+}
+
+type VocabClause struct {
+	Label    string
+	Producer string // local key of the producing function in the same package
 }
 
 type LogClause struct {
@@ -79,17 +86,20 @@ type PredDecl struct {
 }
 
 type FuncContract struct {
-	Pkg     string // package path relative key (import path)
-	Recv    string // receiver type name, "" for functions; leading * kept
-	Name    string
-	Clauses []*Clause
-	File    string
-	Line    int
-	Header  string
-	BitWidth int        // symbolic & | ^ &^ on signed ints are expanded over this many bits; operands are proved to lie in [0, 2^n)
-	Overflow bool       // generate signed-overflow obligations for + - * in this function
-	Logs     []LogClause // ghost-log primitives: calling this function appends a value to a named ghost log
-	Unfold  []string // recursive definitions whose unfolding axioms are given to the solver (default: none, applications stay opaque)
+	Pkg      string // package path relative key (import path)
+	Recv     string // receiver type name, "" for functions; leading * kept
+	Name     string
+	Clauses  []*Clause
+	File     string
+	Line     int
+	Header   string
+	BitWidth int           // symbolic & | ^ &^ on signed ints are expanded over this many bits; operands are proved to lie in [0, 2^n)
+	Vocab    []VocabClause // SGR vocabulary inclusion checks
+	Tokens   bool          // interpret writes of constant escape-sequence templates as updates of the ghost pen
+	Overflow bool          // generate signed-overflow obligations for + - * in this function
+	Logs     []LogClause   // ghost-log primitives: calling this function appends a value to a named ghost log
+	Extern   bool          // assumed contract of a function outside the module
+	Unfold   []string      // recursive definitions whose unfolding axioms are given to the solver (default: none, applications stay opaque)
 }
 
 func (fc *FuncContract) Key() string {
@@ -103,15 +113,20 @@ func (fc *FuncContract) Key() string {
 }
 
 type PkgContracts struct {
-	Funcs    map[string]*FuncContract
-	Preds    map[string]*PredDecl
-	Inline   map[string]bool
-	NoInline map[string]bool
-	Assumes  []string
-	Files    []string
-	Bits     map[string]int
-	PureFields  map[string]bool // "Type.Field": calling the func value stored in this field has no side effects (assumed)
-	FreshResult []string // functions (localKey prefix) whose slice/pointer result is exclusively owned (assumed)
+	Funcs        map[string]*FuncContract
+	Preds        map[string]*PredDecl
+	Inline       map[string]bool
+	NoInline     map[string]bool
+	Assumes      []string
+	Files        []string
+	Bits         map[string]int
+	BVTypes      []string                 // unsigned named types modelled natively as bit-vectors of their size
+	PureFields   map[string]bool          // "Type.Field": calling the func value stored in this field has no side effects (assumed)
+	FreshResult  []string                 // functions (localKey prefix) whose slice/pointer result is exclusively owned (assumed)
+	ExternAttr   map[string][]string      // "pkgpath.Type.Method" or callee string -> ufun name per result: the result is a fixed function of receiver and arguments (assumed)
+	ExternFuncs  map[string]*FuncContract // callee string -> assumed contract of a function outside the module
+	ExternNonNil map[string]bool
+	PkgPath      string
 }
 
 // ---------------------------------------------------------------- lexer
@@ -448,7 +463,7 @@ func (p *parser) primary() Expr {
 
 var blockRe = regexp.MustCompile(`(?s)/\*@(.*?)@\*/`)
 var clauseKw = map[string]bool{"requires": true, "ensures": true, "modifies": true, "loop": true, "panics": true,
-	"assume": true, "exit": true, "func": true, "pred": true, "spec": true, "inline": true, "noinline": true, "pure": true, "ghost": true, "rec": true, "bits": true, "unfold": true, "logs": true, "overflow": true, "freshresult": true, "lemma": true, "bitwidth": true, "ufun": true, "purefield": true}
+	"assume": true, "exit": true, "func": true, "pred": true, "spec": true, "inline": true, "noinline": true, "pure": true, "ghost": true, "rec": true, "bits": true, "unfold": true, "logs": true, "overflow": true, "freshresult": true, "lemma": true, "bitwidth": true, "ufun": true, "purefield": true, "tokens": true, "bvtype": true, "vocab": true, "extern": true}
 
 // ReadContracts parses every contracts_verif*.go file of a package directory.
 func ReadContracts(dir string) (*PkgContracts, error) {
@@ -581,6 +596,59 @@ func (pc *PkgContracts) parseBlock(body, file string, line0 int) error {
 			}
 			pd.Body = e
 			pc.Preds[pd.Name] = pd
+		case "extern":
+			// extern attr <callee> = <ufun>[, <ufun>...]   |   extern func <callee>(<param names>)  followed by requires/ensures
+			cur = nil
+			f := strings.Fields(it.text)
+			if len(f) < 2 {
+				return errf("extern attr|func ...")
+			}
+			rest := strings.TrimSpace(it.text[len(f[0]):])
+			switch f[0] {
+			case "attr":
+				eq := strings.Index(rest, "=")
+				if eq < 0 {
+					return errf("extern attr <callee> = <ufun>, ...")
+				}
+				key := strings.TrimSpace(rest[:eq])
+				var ufs []string
+				rhs := strings.TrimSpace(rest[eq+1:])
+				if strings.HasSuffix(rhs, " nonnil") {
+					// the (interface or pointer) results are never nil (assumed)
+					rhs = strings.TrimSpace(strings.TrimSuffix(rhs, " nonnil"))
+					if pc.ExternNonNil == nil {
+						pc.ExternNonNil = map[string]bool{}
+					}
+					pc.ExternNonNil[key] = true
+				}
+				for _, u := range strings.Split(rhs, ",") {
+					ufs = append(ufs, strings.TrimSpace(u))
+				}
+				if pc.ExternAttr == nil {
+					pc.ExternAttr = map[string][]string{}
+				}
+				pc.ExternAttr[key] = ufs
+				pc.Assumes = append(pc.Assumes, "extern attr "+key+": the result is a fixed function of the receiver and arguments (no effects, never changes)")
+			case "func":
+				op := strings.LastIndex(rest, "(")
+				cl := strings.LastIndex(rest, ")")
+				if op < 0 || cl < op {
+					return errf("extern func <callee>(<params>)")
+				}
+				key := strings.TrimSpace(rest[:op])
+				fc := &FuncContract{Name: key, Header: rest, File: file, Line: it.line, Extern: true}
+				if pc.ExternFuncs == nil {
+					pc.ExternFuncs = map[string]*FuncContract{}
+				}
+				pc.ExternFuncs[key] = fc
+				pc.Assumes = append(pc.Assumes, "extern func "+key+": contract of a function outside the module, assumed not proved")
+				cur = fc
+			default:
+				return errf("extern attr|func ...")
+			}
+		case "bvtype":
+			cur = nil
+			pc.BVTypes = append(pc.BVTypes, strings.TrimSpace(it.text))
 		case "purefield":
 			cur = nil
 			if pc.PureFields == nil {
@@ -607,6 +675,18 @@ func (pc *PkgContracts) parseBlock(body, file string, line0 int) error {
 			switch it.kw {
 			case "overflow":
 				cur.Overflow = true
+				continue
+			case "tokens":
+				cur.Tokens = true
+				continue
+			case "vocab":
+				// vocab <label>: handles <producer func key>
+				j := strings.Index(text, ":")
+				k := strings.Index(text, "handles")
+				if j < 0 || k < j {
+					return errf("vocab <label>: handles <function>")
+				}
+				cur.Vocab = append(cur.Vocab, VocabClause{Label: strings.TrimSpace(text[:j]), Producer: strings.TrimSpace(text[k+len("handles"):])})
 				continue
 			case "bitwidth":
 				n, err := strconv.Atoi(strings.TrimSpace(text))
@@ -654,7 +734,20 @@ func (pc *PkgContracts) parseBlock(body, file string, line0 int) error {
 			case "panics":
 				text = strings.TrimSpace(strings.TrimPrefix(text, "when"))
 			case "exit":
-				text = strings.TrimSpace(strings.TrimPrefix(text, "assert"))
+				// exit [N] assert|lemma ...: N selects one return statement (source order, from 1)
+				if f := strings.Fields(text); len(f) > 0 {
+					if n, err := strconv.Atoi(f[0]); err == nil {
+						cl.Site = n
+						text = strings.TrimSpace(text[len(f[0]):])
+					}
+				}
+				if strings.HasPrefix(text, "lemma") {
+					// exit lemma: proved at every return site, then available to the later exit clauses and the postconditions
+					cl.Lemma = true
+					text = strings.TrimSpace(strings.TrimPrefix(text, "lemma"))
+				} else {
+					text = strings.TrimSpace(strings.TrimPrefix(text, "assert"))
+				}
 			case "assume":
 				pc.Assumes = append(pc.Assumes, cur.Key()+": "+text)
 				if j := strings.Index(text, " -- "); j >= 0 {
@@ -665,6 +758,9 @@ func (pc *PkgContracts) parseBlock(body, file string, line0 int) error {
 			}
 			if cl.Kind == "note" {
 				continue
+			}
+			if cl.Kind == "modifies" && cl.Loop != 0 {
+				return errf("loop clauses are invariant, decreases, assert or `preserves old` (there is no loop modifies)")
 			}
 			if cl.Kind == "modifies" {
 				for _, part := range splitTop(text, ',') {
@@ -684,6 +780,14 @@ func (pc *PkgContracts) parseBlock(body, file string, line0 int) error {
 						return errf("%v", err)
 					}
 					cl.Mods = append(cl.Mods, e)
+				}
+				cur.Clauses = append(cur.Clauses, cl)
+				continue
+			}
+			if cl.Kind == "preserves" {
+				// loop N preserves old
+				if strings.TrimSpace(text) != "old" {
+					return errf("loop N preserves old")
 				}
 				cur.Clauses = append(cur.Clauses, cl)
 				continue
@@ -727,7 +831,7 @@ func splitTop(s string, sep byte) []string {
 	return out
 }
 
-var funcHdrRe = regexp.MustCompile(`^(?:\(\s*(\w+)\s+(\*?\w+)\s*\)\s*)?(\w+)\s*\(`)
+var funcHdrRe = regexp.MustCompile(`^(?:\(\s*(\w+)\s+(\*?\w+)\s*\)\s*)?([\w$]+)\s*\(`)
 
 func parseFuncHeader(s string) (*FuncContract, error) {
 	m := funcHdrRe.FindStringSubmatch(s)
